@@ -1528,6 +1528,16 @@ def campaign(chk, prop, conf):
         if len(data) <= (280 if quick else 420):
             crafted.append(('crafted:%s' % json_scope(scope), accept, data))
 
+    # ---- 2b. structural monitors
+    reps = 1 if quick else 4
+    two_blocks_monitor(chk, prop, keyhex, conf, reps)
+    if conf:
+        admin_bcb_monitor(chk, prop, keyhex, reps)
+    else:
+        short_results_monitor(chk, prop, keyhex, reps)
+        attached_payload_monitor(chk, prop, keyhex, reps + 1)
+        sign1_monitor(chk, prop, keyhex, reps + 1)
+
     # ---- 3. every single-bit flip through the real receiver
     n_flip = (3, 5) if quick else (40, 60)
     by_mode = {}
@@ -1624,6 +1634,338 @@ def mackw_receive_check(chk, prop, keyhex, n):
             elif not o.sec_marked():
                 chk.violation('%s:mackw-%s-not-marked' % (prop, what), 'COSE_Mac+KW: %s not marked as security failure' % what,
                               dict(replay, observed=o.summary()))
+
+
+# ---------------------------------------------------------------- structural monitors (C03 / C16)
+
+def rebuild_asb(sec, fn):
+    """ Decode the ASB of a harness-made block, let `fn` edit its components, re-encode. """
+    a = IAsb(bytes.fromhex(sec['btsd']))
+    comp = dict(targets=list(a.targets), ctx_id=a.ctx_id, source=a.source,
+                params=[(p[0], to_cbor2(p[1])) for p in a.params] if a.flags & 1 else None,
+                results=[[(r[0], to_cbor2(r[1])) for r in rl] for rl in a.results])
+    fn(comp)
+    return dict(sec, btsd=build_asb(comp['targets'], comp['results'], ctx_id=comp['ctx_id'], source=comp['source'],
+                                    params=comp['params']).hex())
+
+
+def _expect_reject(chk, prop, sig, what, out, replay):
+    chk.case({'d': replay['data']}, nontrivial=True)
+    if out.delivered:
+        chk.violation('%s:%s' % (prop, sig), what + ': delivered', dict(replay, expected='must-fail', observed=out.summary()))
+        return False
+    if not out.sec_marked():
+        chk.violation('%s:failure-not-marked-security' % prop, what + ': rejected without a security reason',
+                      dict(replay, expected='must-fail', observed=out.summary()))
+        return False
+    return True
+
+
+def _expect_deliver(chk, prop, what, out, replay):
+    chk.case({'d': replay['data']}, nontrivial=True)
+    if not out.delivered:
+        chk.violation('%s:unmodified-bundle-rejected' % prop, what + ': not delivered',
+                      dict(replay, expected='must-pass', observed=out.summary()))
+        return False
+    return True
+
+
+def two_blocks_monitor(chk, prop, keyhex, conf, reps):
+    """ Two security blocks of the same kind in one bundle; the first verifies (and, with acceptance, is removed
+    while the receive step iterates); the second must still be verified. """
+    rng = chk.rng
+    keys = keys_from_hex(keyhex)
+    kraw = bytes.fromhex(keyhex['enc' if conf else 'mac'])
+    sc = [[0, 1], [-1, 1]]
+    for rep in range(reps):
+        ib, payload = plain_bundle(rng, chk.tier, extra=1, payload=(b'two blocks, one bundle' if rep == 0 else None) or b'x')
+        e = [b['num'] for b in ib.blocks if b['type'] != 1][0]
+        n1 = max(b['num'] for b in ib.blocks) + 1
+        n2 = n1 + 1
+        iv = lambda: bytes(rng.getrandbits(8) for _ in range(12))  # noqa: E731
+        if conf:
+            a, bl = craft_bcb(chk, ib, kraw, [e], n1, [iv()], scope=sc)
+            b, bl2 = craft_bcb(chk, ib, kraw, [1], n2, [iv()], scope=sc, blocks=bl)
+            bz, blz = craft_bcb(chk, ib, kraw, [1], n2, [iv()], scope=sc, blocks=bl, kid=b'zz')
+        else:
+            a = craft_bib(chk, ib, kraw, [e], n1, scope=sc)
+            b = craft_bib(chk, ib, kraw, [1], n2, scope=sc)
+            bz = craft_bib(chk, ib, kraw, [1], n2, scope=sc, kid=b'zz')
+            bl2 = blz = ib.blocks
+        for accept in (True, False):
+            base = dict(keys=keyhex, mode='two-blocks', accept=accept, first_block=n1, second_block=n2)
+            good = insert_before_payload(bl2, [a, b])
+            data = assemble(ib, good)
+            out = Receiver(keys, accept=accept).feed(data)
+            chk.count('two-blocks:good')
+            if _expect_deliver(chk, prop, 'two security blocks, both valid', out, dict(base, data=data.hex())) and accept:
+                got = {x[1]: x for x in out.delivered_blocks}
+                if [x for x in out.delivered_blocks if x[0] in (11, 12)]:
+                    chk.violation('%s:accepted-block-not-removed' % prop, 'acceptance configured but a verified security block is still present',
+                                  dict(base, data=data.hex(), observed=out.summary()))
+                if conf and got[1][2] != payload:
+                    chk.violation('C16:plaintext-not-recovered', 'second BCB: plaintext not recovered', dict(base, data=data.hex(), observed=out.summary()))
+            for what, blocks in (('second block: target altered', alter_btsd(good, 1)),
+                                 ('first block: target altered', alter_btsd(good, e)),
+                                 ('second block: key id unknown to the receiver', insert_before_payload(blz, [a, bz]))):
+                v = assemble(ib, blocks)
+                o = Receiver(keys, accept=accept).feed(v)
+                chk.count('two-blocks:%s' % what.split(':')[0])
+                sig = 'second-block-not-verified' if what.startswith('second') else 'altered-target-delivered'
+                _expect_reject(chk, prop, sig, 'two security blocks, ' + what, o, dict(base, data=v.hex(), original=data.hex(), what=what))
+
+
+def short_results_monitor(chk, prop, keyhex, reps):
+    """ BIB whose results array is shorter than its targets array: the targets without a result must fail. """
+    rng = chk.rng
+    keys = keys_from_hex(keyhex)
+    sc = [[0, 1], [-1, 1]]
+    for rep in range(reps):
+        ib, _payload = plain_bundle(rng, chk.tier, extra=1, payload=b'results may not be stripped')
+        e = [b['num'] for b in ib.blocks if b['type'] != 1][0]
+        n1 = max(b['num'] for b in ib.blocks) + 1
+        for T in ([1, e], [e, 1]):
+            sec = craft_bib(chk, ib, bytes.fromhex(keyhex['mac']), T, n1, scope=sc)
+            for accept in (False, True):
+                base = dict(keys=keyhex, mode='short-results', accept=accept, targets=T)
+                data = assemble(ib, insert_before_payload(ib.blocks, [sec]))
+                _expect_deliver(chk, prop, 'two-target BIB', Receiver(keys, accept=accept).feed(data), dict(base, data=data.hex()))
+                for keep in (1, 0):
+                    cut = rebuild_asb(sec, lambda c, keep=keep: c.__setitem__('results', c['results'][:keep]))
+                    for altered in (None, T[-1], T[0]):
+                        if altered == T[0] and keep == 1:
+                            continue          # that target still has its result: covered by other monitors
+                        blocks = insert_before_payload(ib.blocks if altered is None else alter_btsd(ib.blocks, altered), [cut])
+                        v = assemble(ib, blocks)
+                        o = Receiver(keys, accept=accept).feed(v)
+                        chk.count('short-results:%d-of-2-results' % keep)
+                        _expect_reject(chk, prop, 'target-without-result-delivered',
+                                       'BIB with %d result lists for 2 targets (target %s altered)' % (keep, altered), o,
+                                       dict(base, data=v.hex(), original=data.hex(), results_kept=keep, altered_target=altered))
+
+
+def attached_payload_monitor(chk, prop, keyhex, reps):
+    """ COSE_Mac0 whose payload slot holds a copy of the original target data (attached form): the MAC must still be
+    computed over the block that is actually in the bundle. """
+    rng = chk.rng
+    keys = keys_from_hex(keyhex)
+    for rep in range(reps):
+        ib, payload = plain_bundle(rng, chk.tier, extra=rep % 2, payload=b'the embedded copy is not the block')
+        n1 = max(b['num'] for b in ib.blocks) + 1
+        sec = craft_bib(chk, ib, bytes.fromhex(keyhex['mac']), [1], n1, scope=[[0, 1], [-1, 1]])
+
+        def attach(c):
+            rid, val = c['results'][0][0]
+            msg = cbor2.loads(val)
+            msg[2] = payload
+            c['results'][0] = [(rid, cbor2.dumps(msg))]
+        sec2 = rebuild_asb(sec, attach)
+        for accept in (False, True):
+            base = dict(keys=keyhex, mode='attached-payload', accept=accept)
+            data = assemble(ib, insert_before_payload(ib.blocks, [sec2]))
+            out = Receiver(keys, accept=accept).feed(data)
+            chk.count('attached-payload:unaltered:%s' % ('delivered' if out.delivered else 'rejected'))
+            v = assemble(ib, insert_before_payload(alter_btsd(ib.blocks, 1), [sec2]))
+            o = Receiver(keys, accept=accept).feed(v)
+            chk.count('attached-payload:target-altered')
+            _expect_reject(chk, prop, 'embedded-payload-verified',
+                           'security result embeds the original payload, the payload block itself is altered', o,
+                           dict(base, data=v.hex(), original=data.hex()))
+
+
+_CERTS = {}
+
+
+def _sign1_material():
+    """ One CA and end-entity certificates (same key) that differ in their NODE-ID subjectAltName. """
+    if _CERTS:
+        return _CERTS
+    import datetime
+    from cryptography import x509
+    from cryptography.x509.oid import NameOID
+    from cryptography.hazmat.primitives import hashes, serialization
+    from cryptography.hazmat.primitives.asymmetric import ec
+    from bp.crypto import OID_ON_EID
+
+    def ia5(text):
+        raw = text.encode('ascii')
+        return b'\x16' + bytes([len(raw)]) + raw
+
+    def mk(subject, key, issuer_name, issuer_key, sans):
+        b = (x509.CertificateBuilder()
+             .subject_name(x509.Name([x509.NameAttribute(NameOID.COMMON_NAME, subject)])).issuer_name(issuer_name)
+             .public_key(key.public_key()).serial_number(x509.random_serial_number())
+             .not_valid_before(datetime.datetime(2020, 1, 1)).not_valid_after(datetime.datetime(2040, 1, 1))
+             .add_extension(x509.SubjectKeyIdentifier.from_public_key(key.public_key()), False))
+        if sans:
+            b = b.add_extension(x509.SubjectAlternativeName(sans), False)
+        return b.sign(issuer_key, hashes.SHA256())
+    cak = ec.generate_private_key(ec.SECP256R1())
+    can = x509.Name([x509.NameAttribute(NameOID.COMMON_NAME, 'verif ca')])
+    eek = ec.generate_private_key(ec.SECP256R1())
+    _CERTS['ca'] = mk('verif ca', cak, can, cak, None)
+    _CERTS['key'] = eek
+    _CERTS['other_key'] = ec.generate_private_key(ec.SECP256R1())
+    for name, sans in (('match', [x509.OtherName(OID_ON_EID, ia5('dtn://node/'))]),
+                       ('other-node-id', [x509.OtherName(OID_ON_EID, ia5('dtn://evil/'))]),
+                       ('dns-only', [x509.DNSName('node.example')]),
+                       ('no-san', None)):
+        _CERTS[name] = mk('ee ' + name, eek, can, cak, sans).public_bytes(serialization.Encoding.DER)
+    return _CERTS
+
+
+def craft_bib_sign1(chk, ib, signing_key, cert_der, targets, sec_num, scope):
+    """ BIB with COSE_Sign1 (ES256, x5chain in the unprotected header); Sig_structure from the Lean model. """
+    from cryptography.hazmat.primitives import hashes
+    from cryptography.hazmat.primitives.asymmetric import ec
+    from cryptography.hazmat.primitives.asymmetric.utils import decode_dss_signature
+    prot = cbor2.dumps({1: -7})
+    source = {'t': 'dtn', 'ssp': b'//node/'.hex()}
+    sec = dict(type=11, num=sec_num, flags=0, crcType=0, btsd='', crc=None)
+    sc = [list(x) for x in scope]
+    reqs = [{'op': 'sec.macinput', 'context': 'Signature1', 'prot': prot.hex(),
+             'ctx': dict(ssrc=source, scope=sc, primary=ib.primary, blocks=ib.blocks, secBlk=sec,
+                         tgt=[b for b in ib.blocks if b['num'] == t][0], addlProt='')} for t in targets]
+    results = []
+    for ans in model(chk, reqs):
+        r, s_ = decode_dss_signature(signing_key.sign(bytes.fromhex(ans['input']), ec.ECDSA(hashes.SHA256())))
+        results.append([(18, cbor2.dumps([prot, {33: cert_der}, None, r.to_bytes(32, 'big') + s_.to_bytes(32, 'big')]))])
+    sec['btsd'] = build_asb(targets, results, source=source, params=[(5, {k: v for k, v in sc})]).hex()
+    return sec
+
+
+def sign1_monitor(chk, prop, keyhex, reps):
+    """ COSE_Sign1 BIBs (security source dtn://node/) whose x5chain certificate does / does not name that node. """
+    import certvalidator
+    mat = _sign1_material()
+    rng = chk.rng
+    keys = keys_from_hex(keyhex)
+    for rep in range(reps):
+        ib, payload = plain_bundle(rng, chk.tier, extra=rep % 2, payload=b'signed by dtn://node/' if rep == 0 else None)
+        n1 = max(b['num'] for b in ib.blocks) + 1
+        accept = bool(rep % 2)
+
+        def rcv():
+            r = Receiver(keys, accept=accept)
+            r.ctx._ca_certs = [mat['ca']]
+            return r
+        base = dict(keys=keyhex, mode='sign1', accept=accept, security_source='dtn://node/')
+        good = craft_bib_sign1(chk, ib, mat['key'], mat['match'], [1], n1, [[0, 1], [-1, 1]])
+        data = assemble(ib, insert_before_payload(ib.blocks, [good]))
+        CAPTURE.active = True
+        out = rcv().feed(data)
+        a2, s2 = CAPTURE.take()
+        CAPTURE.active = False
+        check_captures(chk, a2, s2, 'crafted COSE_Sign1')
+        chk.count('sign1:matching-certificate')
+        if not out.delivered:
+            chk.corr_break('COSE_Sign1 block built from the model Sig_structure does not verify on the implementation',
+                           dict(base, data=data.hex(), observed=out.summary()))
+            continue
+        chk.cov['traces_validated_against_impl'] += 1
+        v = assemble(ib, insert_before_payload(alter_btsd(ib.blocks, 1), [good]))
+        _expect_reject(chk, prop, 'altered-target-delivered', 'COSE_Sign1: target altered', rcv().feed(v), dict(base, data=v.hex(), original=data.hex()))
+        for cert in ('other-node-id', 'dns-only', 'no-san'):
+            sec = craft_bib_sign1(chk, ib, mat['key'], mat[cert], [1], n1, [[0, 1], [-1, 1]])
+            v = assemble(ib, insert_before_payload(ib.blocks, [sec]))
+            chk.count('sign1:certificate-%s' % cert)
+            _expect_reject(chk, prop, 'sign1-certificate-not-naming-source-accepted',
+                           'COSE_Sign1 with a CA-issued certificate (%s) that does not carry the security source as NODE-ID' % cert,
+                           rcv().feed(v), dict(base, data=v.hex(), certificate=cert))
+        sec = craft_bib_sign1(chk, ib, mat['other_key'], mat['match'], [1], n1, [[0, 1], [-1, 1]])
+        v = assemble(ib, insert_before_payload(ib.blocks, [sec]))
+        chk.count('sign1:wrong-signing-key')
+        _expect_reject(chk, prop, 'sign1-wrong-key-accepted', 'COSE_Sign1 signed with a key other than the certificate\'s', rcv().feed(v),
+                       dict(base, data=v.hex()))
+        certvalidator.ACCEPT = False
+        try:
+            o = rcv().feed(data)
+        finally:
+            certvalidator.ACCEPT = True
+        chk.count('sign1:chain-rejected')
+        _expect_reject(chk, prop, 'sign1-invalid-chain-accepted', 'COSE_Sign1 whose certificate chain does not validate', o,
+                       dict(base, data=data.hex(), chain='rejected by the validator'))
+
+
+def admin_bcb_monitor(chk, prop, keyhex, reps):
+    """ A status report generated by an agent whose confidentiality policy covers payload blocks: the report on the
+    wire must carry ciphertext, and the key holder must be able to recover the administrative record. """
+    from cryptography.hazmat.primitives.ciphers.aead import AESGCM
+    from cryptography.hazmat.primitives.keywrap import aes_key_unwrap
+    rng = chk.rng
+    keys = keys_from_hex(keyhex)
+    for rep in range(reps):
+        for mode in ('enc0', 'enckw'):
+            rcv = Receiver(keys, accept=True)
+            ivs = [bytes(rng.getrandbits(8) for _ in range(12)) for _ in range(6)]
+            if mode == 'enc0':
+                sop = SecOperation(sec_type='bcb', role='source', priv_key_id=b'enc', content_iv=ivs)
+            else:
+                sop = SecOperation(sec_type='bcb', role='source', priv_key_id=b'kw', content_alg=A256GCM, content_iv=ivs)
+            rcv.ctx.sec_assoc.append(SecAssociation(src_pat=re.compile('.*'), dst_pat=re.compile('.*'), tgt_blk_types=[1], templates=[sop]))
+            ctr = BundleContainer()
+            ctr.bundle.primary = PrimaryBlock(bundle_flags=0x20000 | 0x4000 | (0x40 if rep % 2 else 0), destination='dtn://dst/svc',
+                                              report_to='dtn://node/rpt', crc_type=rng.choice([0, 1, 2]), lifetime=1000)
+            ctr.bundle.blocks = [CanonicalBlock(type_code=1, block_num=1, crc_type=rng.choice([0, 1, 2]), btsd=b'please report')]
+            data = Sender({}, 'none', rng=rng).send(ctr)
+            out = rcv.feed(data)
+            base = dict(keys=keyhex, mode='status-report-under-bcb:' + mode, trigger=data.hex(), observed=out.summary())
+            chk.count('admin-bcb:%s:reports=%d' % (mode, len(rcv.cl.sent)))
+            if not rcv.cl.sent:
+                chk.corr_break('no status report generated for a bundle requesting one', base)
+                continue
+            for rpt in rcv.cl.sent:
+                replay = dict(base, data=rpt.hex())
+                chk.case({'rpt': rpt.hex()}, nontrivial=True)
+                try:
+                    ib = IBundle(rpt)
+                    bcbs = [b for b in ib.blocks if b['type'] == 12]
+                    asb = IAsb(bytes.fromhex(bcbs[0]['btsd'])) if bcbs else None
+                except Undec as err:
+                    chk.violation('%s:status-report-undecodable' % prop, 'status report does not decode: %s' % err, replay)
+                    continue
+                wire = bytes.fromhex(ib.block(1)['btsd'])
+
+                def is_record(raw):
+                    try:
+                        rec = rd_all(raw)
+                    except Undec:
+                        return False
+                    return isinstance(rec, list) and len(rec) == 2 and rec[0] == 1 and isinstance(rec[1], list)
+                if asb is None or asb.targets != [1]:
+                    chk.violation('%s:source-did-not-apply-security-block' % prop,
+                                  'the confidentiality policy covers payload blocks but the status report has no BCB over block 1', replay)
+                    continue
+                if is_record(wire):
+                    chk.violation('C16:plaintext-on-wire', 'the status report travels with a BCB over its payload AND the plaintext administrative record', replay)
+                    continue
+                # independent recovery: AEAD associated data from the Lean model, AES-GCM from `cryptography`
+                rid, val = asb.results[0][0]
+                sem = cose_sem(rid, val)
+                tgt = ib.block(1)
+                ans = model(chk, [{'op': 'sec.encinput', 'context': COSE_CONTEXT[rid], 'prot': sem['prot'],
+                                   'ctx': model_ctx(ib, bcbs[0], asb, tgt)}])[0]
+                try:
+                    msg = to_cbor2(rd_all(val))
+                    if rid == 16:
+                        cek = bytes.fromhex(keyhex['enc'])
+                    else:
+                        cek = aes_key_unwrap(bytes.fromhex(keyhex['kw']), msg[3][0][2])
+                    plain = AESGCM(cek).decrypt(msg[1][5], wire, bytes.fromhex(ans['input']))
+                except Exception as err:
+                    chk.violation('C16:plaintext-not-recovered', 'the key holder cannot decrypt the status report: %s' % type(err).__name__, replay)
+                    continue
+                chk.cov['traces_validated_against_impl'] += 1
+                if not is_record(plain):
+                    chk.violation('C16:plaintext-not-recovered', 'decrypted status report is not an administrative record', replay)
+                elif has_run(rpt, plain):
+                    chk.violation('C16:plaintext-run-on-wire', 'a run of the administrative record appears in the encoded report', replay)
+                else:
+                    chk.count('admin-bcb:%s:ciphertext-on-wire-and-recoverable' % mode)
+                # the implementation's own receiver (counted, not judged: see report)
+                o2 = Receiver(keys, accept=True, node_id='dtn://node/').feed(rpt)
+                chk.count('admin-bcb:implementation-receiver:%s' % ('delivered' if o2.delivered else
+                                                                    'cannot-decode(%s)' % type(o2.escaped).__name__ if o2.escaped else 'rejected'))
 
 
 def json_scope(scope):
